@@ -14,7 +14,13 @@ package conf
 // op lines
 //   type <T>                                   => ok
 //   load <style> <doc> <doc2|->                => jy=.. jt=.. LJ=.. LY=.. LT=.. RJ=.. RY=.. RT=.. U=.. S=..
-//   munm <optbits> <style> <doc>               => MJB=.. MJR=.. MYB=.. MYR=.. MTB=.. MTR=.. [S=..]
+//   munm <optbits>[r] <style> <doc>            => MJB=.. MJR=.. MYB=.. MYR=.. MTB=.. MTR=.. MX=.. [S=..]
+//        (MX = jsonx.Unmarshal + mapping.NewUnmarshaler("json", opts...).Unmarshal: the meaning of the options spelled out)
+//   mrd <mode> <optbits> <style> <doc>         => JB= JR= YB= YR= TB= TR=   the reader entry points on a reader of behaviour <mode>
+//   fmiss <ext> <env 0/1/2> <api> <missing|dir|empty> => <res>   the error paths of conf.Load / LoadConfig
+//   cv <slot> <y|t> <style> <doc>              => tree=..   one YamlToJson / TomlToJson; the RETURNED slice is kept in <slot>
+//   rd <slot>                                  => held=.. snap=.. raw=same|diff   the kept slice now / when it was returned
+//   pload <workers> <rounds> <style> <doc>..   => J<i>= Y<i>= T<i>= MY<i>= MT<i>= FL<i>= MO<i>= CC=same|diff:.. race=na|0|1
 //        mapping.Unmarshal{Json,Yaml,Toml}{Bytes,Reader} with the options of optbits
 //        (1 WithCanonicalKeyFunc(strings.ToLower), 2 WithStringValues, 4 WithFromArray, 8 WithOpaqueKeys);
 //        S = encoding/json on the JSON rendering (optbits 0 only)
@@ -44,13 +50,17 @@ import (
 	"io"
 	"math/big"
 	"os"
+	"os/exec"
 	"path/filepath"
 	"reflect"
+	"runtime"
 	"sort"
 	"strconv"
 	"strings"
+	"sync"
 	"testing"
 
+	"github.com/zeromicro/go-zero/core/jsonx"
 	"github.com/zeromicro/go-zero/core/mapping"
 	"github.com/zeromicro/go-zero/internal/encoding"
 	"github.com/zeromicro/go-zero/internal/verifh"
@@ -841,6 +851,10 @@ type c17Gen struct {
 	// []*T, map[string][]*T; pointers to named number types) and documents whose slices / maps hold 2-3 DISTINCT
 	// entries, so that aliasing between entries shows
 	ptrs bool
+	// big: percentage of slices that get 150-400 elements (documents of several KB: anything that truncates, chunks or
+	// reuses buffers by size shows only there); never nested
+	big   int
+	inBig bool
 }
 
 // ptrWrap: in ptrs mode any value type may become *T or **T.
@@ -1080,7 +1094,8 @@ func (f *c17Field) tagKey() string {
 
 var c17IntPool = []string{"0", "1", "-1", "7", "42", "127", "128", "-128", "-129", "255", "256", "32767", "32768",
 	"-32768", "65535", "65536", "2147483647", "2147483648", "-2147483648", "4294967295", "4294967296",
-	"9223372036854775807", "-9223372036854775808", "16777217", "100", "300", "1000000"}
+	"9223372036854775807", "-9223372036854775808", "16777217", "100", "300", "1000000", "18446744073709551615",
+	"9223372036854775808"}
 
 var c17FloatPool = []string{"0.5", "1.5", "-2.25", "3.125", "0.1", "2.75", "100.5", "-0.75", "1234.5678", "0.001",
 	"3.4028235", "16777217.5", "0.3", "99.99"}
@@ -1147,13 +1162,22 @@ func (g *c17Gen) docFor(t *c17Ty, mut int, nulls bool) *c17Doc {
 		if g.ptrs {
 			n = r.Pick(2, 2, 3, 3, 1, 0)
 		}
+		bigHere := false
+		if g.big > 0 && !g.inBig && r.Intn(100) < g.big {
+			n, bigHere, g.inBig = r.Range(150, 400), true, true
+		}
 		d := &c17Doc{kind: "arr"}
 		for i := 0; i < n; i++ {
 			if nulls && r.Chance(1, 6) {
 				d.arr = append(d.arr, &c17Doc{kind: "null"})
+			} else if bigHere {
+				d.arr = append(d.arr, g.docFor(t.elem, mut/8, nulls))
 			} else {
 				d.arr = append(d.arr, g.distinctDoc(t.elem, mut, nulls, d.arr))
 			}
+		}
+		if bigHere {
+			g.inBig = false
 		}
 		return d
 	case "%":
@@ -1562,6 +1586,47 @@ func c17RegressionSections() []verifh.Section {
 	return []verifh.Section{{Cfg: "kind=load", Ops: ops}}
 }
 
+// c17ParOp: one pload op over 2-4 documents of the section's type (one of them possibly invalid, some with $VAR text).
+func c17ParOp(g *c17Gen, objDoc func(mut int) *c17Doc, workers, rounds int) string {
+	nd := g.r.Range(2, 4)
+	parts := []string{"pload", strconv.Itoa(workers), strconv.Itoa(rounds), strconv.Itoa(g.r.Intn(16))}
+	for q := 0; q < nd; q++ {
+		d := objDoc(g.r.Pick(0, 0, 0, 10))
+		if g.r.Chance(1, 2) {
+			g.dollar(d)
+		}
+		parts = append(parts, d.enc())
+	}
+	return strings.Join(parts, " ")
+}
+
+// c17GenParSections: the sections of the -race harness (TestVerifC17Race): a type and concurrent loads only.
+func c17GenParSections(r *verifh.Rng) []verifh.Section {
+	var secs []verifh.Section
+	nsec := verifh.Scale(16, 48)
+	for i := 0; i < nsec; i++ {
+		g := &c17Gen{r: r.Fork(), plain: i%2 == 0, dots: false, ext: i%4 == 1}
+		g.mode.dotLiteral = 15
+		if i%4 == 2 {
+			g.ptrs = true
+		}
+		t := g.structTy(g.r.Pick(1, 1, 2), false)
+		objDoc := func(mut int) *c17Doc {
+			d := g.docFor(t, mut, false)
+			for d.kind != "obj" {
+				d = g.docFor(t, 0, false)
+			}
+			return d
+		}
+		ops := []string{"type " + t.enc()}
+		for q := 0; q < 2; q++ {
+			ops = append(ops, c17ParOp(g, objDoc, g.r.Pick(4, 8), g.r.Pick(15, 30)))
+		}
+		secs = append(secs, verifh.Section{Cfg: "kind=par", Ops: ops})
+	}
+	return secs
+}
+
 func c17GenSections(r *verifh.Rng) []verifh.Section {
 	var secs []verifh.Section
 	nsec := verifh.Scale(200, 1300)
@@ -1638,6 +1703,25 @@ func c17GenSections(r *verifh.Rng) []verifh.Section {
 			}
 			t = &c17Ty{kind: "{", fields: []c17Field{{name: "Items", key: g.r.PickS("", "items", "Items"), ty: ft}}}
 		}
+		if i%16 == 5 || i%16 == 12 {
+			// directed shape for LARGE documents: a slice (of scalars / small structs / maps) next to ordinary fields
+			var el *c17Ty
+			switch g.r.Intn(4) {
+			case 0:
+				el = &c17Ty{kind: "s"}
+			case 1:
+				el = &c17Ty{kind: g.r.PickS("i", "f64", "u16")}
+			case 2:
+				el = g.structTy(0, false)
+			default:
+				el = &c17Ty{kind: "%", elem: &c17Ty{kind: "i"}}
+			}
+			t = &c17Ty{kind: "{", fields: []c17Field{
+				{name: "Items", key: g.r.PickS("", "items", "Items"), ty: &c17Ty{kind: "@", elem: el}},
+				{name: "Name", key: g.r.PickS("", "name", "Name"), ty: &c17Ty{kind: "s"}},
+				{name: "Limit", key: "limit", optional: true, ty: &c17Ty{kind: "i"}}}}
+			g.big = 40
+		}
 		ops := []string{"type " + t.enc()}
 		nd := g.r.Range(4, 9)
 		for j := 0; j < nd; j++ {
@@ -1653,7 +1737,9 @@ func c17GenSections(r *verifh.Rng) []verifh.Section {
 			}
 			ops = append(ops, fmt.Sprintf("load %d %s %s", g.r.Intn(16), d.enc(), d2))
 		}
-		// documents with keys that collide up to case
+		// documents with keys that collide up to case (loaded 200 times each: no large documents here)
+		bigPct := g.big
+		g.big = 0
 		for j := 0; j < 2; j++ {
 			d := g.docFor(t, 0, false)
 			for d.kind != "obj" {
@@ -1663,6 +1749,7 @@ func c17GenSections(r *verifh.Rng) []verifh.Section {
 				ops = append(ops, fmt.Sprintf("cload %d %s", g.r.Intn(16), d.enc()))
 			}
 		}
+		g.big = bigPct
 		// the file-level API: a SEQUENCE of loads in one process with different option sets (UseEnv on / off
 		// alternating, every API incl. the LoadFrom*Bytes loaders that take no options): an option of one call
 		// must not reach a later call
@@ -1688,7 +1775,7 @@ func c17GenSections(r *verifh.Rng) []verifh.Section {
 					envOn = !envOn
 				}
 				if envOn {
-					env = 1
+					env = g.r.Pick(1, 1, 1, 2) // 2 = UseEnv() given twice
 				}
 			}
 			ext := g.r.PickS(c17Exts...)
@@ -1717,7 +1804,66 @@ func c17GenSections(r *verifh.Rng) []verifh.Section {
 			for d.kind != "obj" {
 				d = g.docFor(t, 0, nulls)
 			}
-			ops = append(ops, fmt.Sprintf("munm %d %d %s", bits, g.r.Intn(16), d.enc()))
+			lst := ""
+			if bits != 0 && g.r.Chance(1, 3) {
+				lst = "r" // the same options as a list in reverse order, each one twice
+			}
+			ops = append(ops, fmt.Sprintf("munm %d%s %d %s", bits, lst, g.r.Intn(16), d.enc()))
+			if g.r.Chance(1, 2) {
+				// the reader entry points with every behaviour of the caller's io.Reader
+				ops = append(ops, fmt.Sprintf("mrd %s %d %d %s", g.r.PickS(c17ReaderModes...), bits, g.r.Intn(16), d.enc()))
+			}
+		}
+		// the error paths of conf.Load: no file, a directory, an empty file, for every extension
+		if g.r.Chance(1, 2) {
+			ops = append(ops, fmt.Sprintf("fmiss %s %d %s %s", g.r.PickS(c17Exts...), g.r.Intn(3), g.r.PickS("Load", "LoadConfig"),
+				g.r.PickS("missing", "dir", "empty", "empty")))
+		}
+		objDoc := func(mut int) *c17Doc {
+			d := g.docFor(t, mut, false)
+			for d.kind != "obj" {
+				d = g.docFor(t, 0, false)
+			}
+			return d
+		}
+		g.mode = c17Mode{dotLiteral: 15}
+		// conversions whose RESULT is inspected only after later conversions / loads: the bytes a front end hands to its
+		// consumer must stay what they were (a buffer that is reused or pooled shows here, deterministically)
+		{
+			slots := []string{"a", "b", "c"}
+			var between []string
+			for _, o := range ops {
+				if strings.HasPrefix(o, "munm ") || strings.HasPrefix(o, "fload ") || strings.HasPrefix(o, "load ") {
+					between = append(between, o)
+				}
+			}
+			cv := func(slot string) string {
+				return fmt.Sprintf("cv %s %s %d %s", slot, g.r.PickS("y", "t", "y"), g.r.Intn(16), objDoc(0).enc())
+			}
+			ops = append(ops, cv("a"), cv("b"), "rd a")
+			nstep := g.r.Range(3, 7)
+			for q := 0; q < nstep; q++ {
+				switch g.r.Intn(5) {
+				case 0, 1:
+					ops = append(ops, cv(g.r.PickS(slots...)))
+				case 2, 3:
+					ops = append(ops, "rd "+g.r.PickS(slots...))
+				default:
+					if len(between) > 0 {
+						ops = append(ops, between[g.r.Intn(len(between))])
+					}
+				}
+			}
+			for _, sl := range slots {
+				ops = append(ops, "rd "+sl)
+			}
+		}
+		// concurrent loads of DIFFERENT documents through the conf and mapping entry points (and conf.Load on files,
+		// UseEnv on every second one): every result must be the one the same call gives alone
+		if i%2 == 0 {
+			g.big = bigPct / 4
+			ops = append(ops, c17ParOp(g, objDoc, g.r.Pick(4, 8, 16), g.r.Pick(20, 40)))
+			g.big = bigPct
 		}
 		// the same call again, later in the same process, after calls with other option sets: the result must be
 		// the same (options, caches and defaults of earlier calls must not reach a later one)
@@ -1756,292 +1902,714 @@ func c17GenSections(r *verifh.Rng) []verifh.Section {
 func TestVerifC17(t *testing.T) {
 	secs := verifh.Sections(c17GenSections)
 	verifh.Run(t, secs, func(cfg verifh.Cfg) (func(op []string) string, func()) {
-		var rt reflect.Type
-		step := func(op []string) string {
-			switch op[0] {
-			case "type":
-				if len(op) != 2 {
-					return "bad-op"
-				}
-				p := &c17Parser{s: op[1]}
-				ty := p.ty()
-				if p.i != len(p.s) || ty.kind != "{" {
-					return "bad-op"
-				}
-				rt = ty.rtype()
-				// proc.Env caches the first read of a variable for the life of the process: the value of a
-				// variable is a function of its name (C17E_<value>; anything else is unset)
-				var setEnv func(t *c17Ty)
-				setEnv = func(x *c17Ty) {
-					if x.elem != nil {
-						setEnv(x.elem)
-					}
-					for i := range x.fields {
-						if e := x.fields[i].env; strings.HasPrefix(e, "C17E_") {
-							t.Setenv(e, e[5:])
-						}
-						setEnv(x.fields[i].ty)
-					}
-				}
-				setEnv(ty)
-				return "ok"
-			case "load":
-				if len(op) != 4 {
-					return "bad-op"
-				}
-				if rt == nil {
-					return "no-type"
-				}
-				style := verifh.Atoi(op[1])
-				p := &c17Parser{s: op[2]}
-				d := p.doc()
-				if p.i != len(p.s) {
-					return "bad-op"
-				}
-				var out []string
-				js := d.renderJSON(style)
-				ys := d.renderYAML(style)
-				ts, tok := d.renderTOML(style)
-				out = append(out, "jy="+c17TreeOfJSON(encoding.YamlToJson([]byte(ys))))
-				if tok {
-					out = append(out, "jt="+c17TreeOfJSON(encoding.TomlToJson([]byte(ts))))
-				} else {
-					out = append(out, "jt=skip")
-				}
-				loadAll := func(pre string, js, ys, ts string, tok bool) {
-					out = append(out, pre+"J="+c17Decode(rt, func(v any) error { return LoadFromJsonBytes([]byte(js), v) }))
-					out = append(out, pre+"Y="+c17Decode(rt, func(v any) error { return LoadFromYamlBytes([]byte(ys), v) }))
-					if tok {
-						out = append(out, pre+"T="+c17Decode(rt, func(v any) error { return LoadFromTomlBytes([]byte(ts), v) }))
-					} else {
-						out = append(out, pre+"T=skip")
-					}
-				}
-				loadAll("L", js, ys, ts, tok)
-				if op[3] != "-" {
-					p2 := &c17Parser{s: op[3]}
-					d2 := p2.doc()
-					if p2.i != len(p2.s) {
-						return "bad-op"
-					}
-					ts2, tok2 := d2.renderTOML(style)
-					loadAll("R", d2.renderJSON(style), d2.renderYAML(style), ts2, tok2)
-				}
-				out = append(out, "U="+c17Decode(rt, func(v any) error { return mapping.UnmarshalJsonBytes([]byte(js), v) }))
-				out = append(out, "S="+c17Decode(rt, func(v any) error { return json.Unmarshal([]byte(js), v) }))
-				out = append(out, c17AliasTok())
-				return strings.Join(out, " ")
-			case "munm":
-				if len(op) != 4 {
-					return "bad-op"
-				}
-				if rt == nil {
-					return "no-type"
-				}
-				bits, style := verifh.Atoi(op[1]), verifh.Atoi(op[2])
-				p := &c17Parser{s: op[3]}
-				d := p.doc()
-				if p.i != len(p.s) {
-					return "bad-op"
-				}
-				var opts []mapping.UnmarshalOption
-				if bits&1 != 0 {
-					opts = append(opts, mapping.WithCanonicalKeyFunc(strings.ToLower))
-				}
-				if bits&2 != 0 {
-					opts = append(opts, mapping.WithStringValues())
-				}
-				if bits&4 != 0 {
-					opts = append(opts, mapping.WithFromArray())
-				}
-				if bits&8 != 0 {
-					opts = append(opts, mapping.WithOpaqueKeys())
-				}
-				js, ys := d.renderJSON(style), d.renderYAML(style)
-				ts, tok := d.renderTOML(style)
-				rd := func(s string) io.Reader { return io.MultiReader(strings.NewReader(s[:len(s)/2]), strings.NewReader(s[len(s)/2:])) }
-				var out []string
-				out = append(out, "MJB="+c17Decode(rt, func(v any) error { return mapping.UnmarshalJsonBytes([]byte(js), v, opts...) }))
-				out = append(out, "MJR="+c17Decode(rt, func(v any) error { return mapping.UnmarshalJsonReader(rd(js), v, opts...) }))
-				out = append(out, "MYB="+c17Decode(rt, func(v any) error { return mapping.UnmarshalYamlBytes([]byte(ys), v, opts...) }))
-				out = append(out, "MYR="+c17Decode(rt, func(v any) error { return mapping.UnmarshalYamlReader(rd(ys), v, opts...) }))
-				if tok {
-					out = append(out, "MTB="+c17Decode(rt, func(v any) error { return mapping.UnmarshalTomlBytes([]byte(ts), v, opts...) }))
-					out = append(out, "MTR="+c17Decode(rt, func(v any) error { return mapping.UnmarshalTomlReader(rd(ts), v, opts...) }))
-				} else {
-					out = append(out, "MTB=skip", "MTR=skip")
-				}
-				if bits == 0 {
-					out = append(out, "S="+c17Decode(rt, func(v any) error { return json.Unmarshal([]byte(js), v) }))
-				}
-				out = append(out, c17AliasTok())
-				return strings.Join(out, " ")
-			case "cload":
-				if len(op) != 3 {
-					return "bad-op"
-				}
-				if rt == nil {
-					return "no-type"
-				}
-				style := verifh.Atoi(op[1])
-				p := &c17Parser{s: op[2]}
-				d := p.doc()
-				if p.i != len(p.s) {
-					return "bad-op"
-				}
-				js, ys := d.renderJSON(style), d.renderYAML(style)
-				ts, tok := d.renderTOML(style)
-				many := func(f func(v any) error) string {
-					first := ""
-					for i := 0; i < 200; i++ {
-						res := c17Decode(rt, f)
-						if i == 0 {
-							first = res
-						} else if res != first {
-							return "nondet"
-						}
-					}
-					return "det:" + first
-				}
-				out := []string{
-					"CJ=" + many(func(v any) error { return LoadFromJsonBytes([]byte(js), v) }),
-					"CY=" + many(func(v any) error { return LoadFromYamlBytes([]byte(ys), v) }),
-				}
-				if tok {
-					out = append(out, "CT="+many(func(v any) error { return LoadFromTomlBytes([]byte(ts), v) }))
-				} else {
-					out = append(out, "CT=skip")
-				}
-				out = append(out, c17AliasTok())
-				return strings.Join(out, " ")
-			case "f32":
-				if len(op) != 2 {
-					return "bad-op"
-				}
-				ft := reflect.StructOf([]reflect.StructField{{Name: "X", Type: reflect.TypeOf(float32(0)), Tag: `json:"x"`}})
-				js := `{"x":` + op[1] + `}`
-				return "U=" + c17Decode(ft, func(v any) error { return mapping.UnmarshalJsonBytes([]byte(js), v) }) +
-					" L=" + c17Decode(ft, func(v any) error { return LoadFromJsonBytes([]byte(js), v) }) +
-					" S=" + c17Decode(ft, func(v any) error { return json.Unmarshal([]byte(js), v) }) + " " + c17AliasTok()
-			case "filldef":
-				if rt == nil {
-					return "no-type"
-				}
-				return c17Decode(rt, func(v any) error { return FillDefault(v) }) + " " + c17AliasTok()
-			case "fload":
-				if len(op) != 6 {
-					return "bad-op"
-				}
-				if rt == nil {
-					return "no-type"
-				}
-				ext, useEnv, api, style := op[1], op[2] == "1", op[3], verifh.Atoi(op[4])
-				p := &c17Parser{s: op[5]}
-				d := p.doc()
-				if p.i != len(p.s) {
-					return "bad-op"
-				}
-				var content string
-				switch strings.ToLower(ext) {
-				case ".toml":
-					ts, tok := d.renderTOML(style)
-					if !tok {
-						return "skip " + c17AliasTok()
-					}
-					content = ts
-				case ".yaml", ".yml":
-					content = d.renderYAML(style)
-				default:
-					content = d.renderJSON(style)
-				}
-				t.Setenv("C17V", "xv")
-				file := filepath.Join(t.TempDir(), "conf"+ext)
-				if err := os.WriteFile(file, []byte(content), 0o600); err != nil {
-					return "io-error"
-				}
-				var opts []Option
-				if useEnv {
-					opts = append(opts, UseEnv())
-				}
-				load := Load
-				switch api {
-				case "LoadConfig":
-					load = LoadConfig
-				case "Bytes":
-					// the loaders without options, on the same content
-					if useEnv {
-						return "bad-op"
-					}
-					load = func(_ string, v any, _ ...Option) error {
-						switch strings.ToLower(ext) {
-						case ".toml":
-							return LoadFromTomlBytes([]byte(content), v)
-						case ".yaml", ".yml":
-							if style&1 != 0 {
-								return LoadConfigFromYamlBytes([]byte(content), v) // deprecated wrapper
-							}
-							return LoadFromYamlBytes([]byte(content), v)
-						case ".json":
-							if style&1 != 0 {
-								return LoadConfigFromJsonBytes([]byte(content), v) // deprecated wrapper
-							}
-							return LoadFromJsonBytes([]byte(content), v)
-						}
-						return fmt.Errorf("no loader")
-					}
-				case "Load", "MustLoad":
-				default:
-					return "bad-op"
-				}
-				res := c17Decode(rt, func(v any) error { return load(file, v, opts...) })
-				if api == "MustLoad" && strings.HasPrefix(res, "ok:") {
-					// MustLoad exits the process on an error: only called where Load succeeded
-					m := c17Decode(rt, func(v any) error { MustLoad(file, v, opts...); return nil })
-					if m == res {
-						res += " M=same"
-					} else {
-						res += " M=diff"
-					}
-				}
-				return res + " " + c17AliasTok()
-			case "file":
-				if len(op) != 7 {
-					return "bad-op"
-				}
-				ext, useEnv, pre, name, val, post := op[1], op[2] == "1", op[3], op[4], op[5], op[6]
-				if name != "C17unset" {
-					t.Setenv(name, val)
-				}
-				text := pre + "${" + name + "}" + post
-				var content string
-				switch strings.ToLower(ext) {
-				case ".toml":
-					content = `v = "` + text + `"` + "\n"
-				case ".yaml", ".yml":
-					content = `v: "` + text + `"` + "\n"
-				default:
-					content = `{"v":"` + text + `"}`
-				}
-				file := filepath.Join(t.TempDir(), "conf"+ext)
-				if err := os.WriteFile(file, []byte(content), 0o600); err != nil {
-					return "io-error"
-				}
-				var c struct {
-					V string `json:"v"`
-				}
-				var err error
-				if useEnv {
-					err = Load(file, &c, UseEnv())
-				} else {
-					err = Load(file, &c)
-				}
-				if err != nil {
-					return "err"
-				}
-				return `ok:"` + c.V + `"`
-			}
-			return "bad-op"
-		}
-		return step, nil
+		return c17NewStep(t), nil
 	})
+}
+
+// TestVerifC17Race: the concurrent loads again, in a binary built with -race (props/C17.json: race true).  Every pload
+// op is executed in a CHILD process of this binary (TestVerifC17Child) whose race reports are read back, so that a data
+// race between two loads becomes an observation (`race=1`) with a replay instead of a failed test run.
+func TestVerifC17Race(t *testing.T) {
+	secs := verifh.Sections(c17GenParSections)
+	verifh.Run(t, secs, func(cfg verifh.Cfg) (func(op []string) string, func()) {
+		return c17NewStep(t), nil
+	})
+}
+
+// TestVerifC17Child executes the op lines of C17_CHILD_OPS in this process and prints the last observation.
+func TestVerifC17Child(t *testing.T) {
+	ops := os.Getenv("C17_CHILD_OPS")
+	if ops == "" {
+		t.Skip("helper of TestVerifC17Race")
+	}
+	step := c17NewStep(t)
+	obs := ""
+	for _, ln := range strings.Split(ops, "\n") {
+		if f := strings.Fields(ln); len(f) > 0 {
+			obs = step(f)
+		}
+	}
+	fmt.Println("C17OBS " + obs)
+}
+
+// c17RunChild runs `type` + one op in a child process of the (race-built) test binary and reports whether the race
+// detector fired there.
+// c17MapOpts: "<bits>" = the options of the bits in ascending order; "<bits>r" = in descending order, each one twice.
+func c17MapOpts(tok string) ([]mapping.UnmarshalOption, int, bool) {
+	rev := strings.HasSuffix(tok, "r")
+	n, err := strconv.Atoi(strings.TrimSuffix(tok, "r"))
+	if err != nil || n < 0 || n > 15 {
+		return nil, 0, false
+	}
+	var opts []mapping.UnmarshalOption
+	if n&1 != 0 {
+		opts = append(opts, mapping.WithCanonicalKeyFunc(strings.ToLower))
+	}
+	if n&2 != 0 {
+		opts = append(opts, mapping.WithStringValues())
+	}
+	if n&4 != 0 {
+		opts = append(opts, mapping.WithFromArray())
+	}
+	if n&8 != 0 {
+		opts = append(opts, mapping.WithOpaqueKeys())
+	}
+	if rev {
+		var out []mapping.UnmarshalOption
+		for i := len(opts) - 1; i >= 0; i-- {
+			out = append(out, opts[i], opts[i])
+		}
+		opts = out
+	}
+	return opts, n, true
+}
+
+func c17RunChild(typeOp string, op []string) string {
+	cmd := exec.Command(os.Args[0], "-test.run", "^TestVerifC17Child$", "-test.count=1")
+	cmd.Env = append(os.Environ(), "C17_CHILD_OPS="+typeOp+"\n"+strings.Join(op, " "), "GORACE=halt_on_error=0 atexit_sleep_ms=0")
+	out, _ := cmd.CombinedOutput()
+	obs := ""
+	for _, ln := range strings.Split(string(out), "\n") {
+		if strings.HasPrefix(ln, "C17OBS ") {
+			obs = strings.TrimPrefix(ln, "C17OBS ")
+		}
+	}
+	if obs == "" {
+		return "child-failed"
+	}
+	race := "race=0"
+	if strings.Contains(string(out), "DATA RACE") {
+		race = "race=1"
+	}
+	return strings.Replace(obs, "race=na", race, 1)
+}
+
+// c17DecodePar: c17Decode without the per-op alias bookkeeping (safe to call from several goroutines).
+func c17DecodePar(rt reflect.Type, f func(ptr any) error) (out string) {
+	defer func() {
+		if p := recover(); p != nil {
+			out = "panic"
+		}
+	}()
+	ptr := reflect.New(rt)
+	if err := f(ptr.Interface()); err != nil {
+		return "err"
+	}
+	var b strings.Builder
+	b.WriteString("ok:")
+	c17DumpVal(ptr.Elem(), &b)
+	return b.String()
+}
+
+var c17ReaderModes = []string{"plain", "onebyte", "zero", "cut", "short", "errfirst", "tail", "panic", "panicstr"}
+
+var errC17Reader = fmt.Errorf("c17: reader failed")
+
+// c17Reader: the caller's io.Reader with one of the behaviours an io.Reader may show.
+type c17Reader struct {
+	data  []byte
+	pos   int
+	mode  string
+	calls int
+}
+
+func (r *c17Reader) Read(p []byte) (int, error) {
+	r.calls++
+	limit, chunk := len(r.data), 512
+	switch r.mode {
+	case "errfirst":
+		return 0, errC17Reader
+	case "panic":
+		panic(errC17Reader)
+	case "panicstr":
+		panic("c17 reader")
+	case "zero":
+		if r.calls%2 == 1 {
+			return 0, nil
+		}
+		chunk = 7
+	case "onebyte":
+		chunk = 1
+	case "cut", "short": // half of the content, then an error (cut) / a clean io.EOF (short: a truncated stream)
+		limit = len(r.data) / 2
+	}
+	if r.pos >= limit {
+		if r.mode == "cut" || r.mode == "tail" {
+			return 0, errC17Reader
+		}
+		return 0, io.EOF
+	}
+	n := limit - r.pos
+	if n > chunk {
+		n = chunk
+	}
+	if n > len(p) {
+		n = len(p)
+	}
+	copy(p, r.data[r.pos:r.pos+n])
+	r.pos += n
+	return n, nil
+}
+
+var c17ParAPIs = []string{"J", "Y", "T", "MY", "MT", "FL", "MO"}
+
+func c17NewStep(t *testing.T) func(op []string) string {
+	var rt reflect.Type
+	typeOp := ""
+	// the bytes a conversion handed out (NOT copies) and what they held when they were handed out
+	held := map[string][]byte{}
+	snap := map[string]string{}
+	step := func(op []string) string {
+		switch op[0] {
+		case "cv":
+			// cv <slot> <y|t> <style> <doc>: one front-end conversion; the RETURNED slice is kept
+			if len(op) != 5 {
+				return "bad-op"
+			}
+			style := verifh.Atoi(op[3])
+			p := &c17Parser{s: op[4]}
+			d := p.doc()
+			if p.i != len(p.s) {
+				return "bad-op"
+			}
+			var b []byte
+			var err error
+			switch op[2] {
+			case "y":
+				b, err = encoding.YamlToJson([]byte(d.renderYAML(style)))
+			case "t":
+				ts, tok := d.renderTOML(style)
+				if !tok {
+					return "tree=skip"
+				}
+				b, err = encoding.TomlToJson([]byte(ts))
+			default:
+				return "bad-op"
+			}
+			if err != nil {
+				delete(held, op[1])
+				delete(snap, op[1])
+				return "tree=err"
+			}
+			held[op[1]] = b
+			snap[op[1]] = string(b)
+			return "tree=" + c17TreeOfJSON([]byte(snap[op[1]]), nil)
+		case "rd":
+			// rd <slot>: what the kept slice holds NOW against what it held when the conversion returned it
+			if len(op) != 2 {
+				return "bad-op"
+			}
+			b, ok := held[op[1]]
+			if !ok {
+				return "empty"
+			}
+			raw := "same"
+			if string(b) != snap[op[1]] {
+				raw = "diff"
+			}
+			return "held=" + c17TreeOfJSON(b, nil) + " snap=" + c17TreeOfJSON([]byte(snap[op[1]]), nil) + " raw=" + raw
+		case "pload":
+			// pload <workers> <rounds> <style> <doc>...: the documents loaded sequentially (reference), then by
+			// <workers> goroutines at once, <rounds> loads each, through the conf and mapping entry points
+			if len(op) < 5 {
+				return "bad-op"
+			}
+			if rt == nil {
+				return "no-type"
+			}
+			if c17RaceBuild && os.Getenv("C17_CHILD_OPS") == "" {
+				return c17RunChild(typeOp, op)
+			}
+			workers, rounds, style := verifh.Atoi(op[1]), verifh.Atoi(op[2]), verifh.Atoi(op[3])
+			if workers < 1 || workers > 64 || rounds < 1 || rounds > 5000 {
+				return "bad-op"
+			}
+			type parDoc struct {
+				js, ys, ts []byte
+				tok        bool
+				file       string
+				opts       []Option
+				ref        [7]string
+				mopts      []mapping.UnmarshalOption
+			}
+			t.Setenv("C17V", "xv")
+			dir := t.TempDir()
+			var docs []*parDoc
+			for i, tokd := range op[4:] {
+				p := &c17Parser{s: tokd}
+				d := p.doc()
+				if p.i != len(p.s) {
+					return "bad-op"
+				}
+				pd := &parDoc{js: []byte(d.renderJSON(style)), ys: []byte(d.renderYAML(style))}
+				ts, tok := d.renderTOML(style)
+				pd.ts, pd.tok = []byte(ts), tok
+				ext, content := ".json", pd.js
+				switch {
+				case i%3 == 1 || (i%3 == 2 && !tok):
+					ext, content = ".yaml", pd.ys
+				case i%3 == 2:
+					ext, content = ".toml", pd.ts
+				}
+				pd.file = filepath.Join(dir, "par"+strconv.Itoa(i)+ext)
+				if err := os.WriteFile(pd.file, content, 0o600); err != nil {
+					return "io-error"
+				}
+				if i%2 == 1 {
+					pd.opts = []Option{UseEnv()}
+				}
+				// MO: mapping.UnmarshalJsonBytes with an option set that differs from document to document
+				pd.mopts, _, _ = c17MapOpts(strconv.Itoa((i*5 + 1) % 16))
+				docs = append(docs, pd)
+			}
+			// the input slices are shared by all goroutines: a loader must not write into its input either
+			run := func(pd *parDoc, api int) string {
+				switch api {
+				case 0:
+					return c17DecodePar(rt, func(v any) error { return LoadFromJsonBytes(pd.js, v) })
+				case 1:
+					return c17DecodePar(rt, func(v any) error { return LoadFromYamlBytes(pd.ys, v) })
+				case 2:
+					if !pd.tok {
+						return "skip"
+					}
+					return c17DecodePar(rt, func(v any) error { return LoadFromTomlBytes(pd.ts, v) })
+				case 3:
+					return c17DecodePar(rt, func(v any) error { return mapping.UnmarshalYamlBytes(pd.ys, v) })
+				case 4:
+					if !pd.tok {
+						return "skip"
+					}
+					return c17DecodePar(rt, func(v any) error { return mapping.UnmarshalTomlBytes(pd.ts, v) })
+				case 6:
+					return c17DecodePar(rt, func(v any) error { return mapping.UnmarshalJsonBytes(pd.js, v, pd.mopts...) })
+				default:
+					return c17DecodePar(rt, func(v any) error { return Load(pd.file, v, pd.opts...) })
+				}
+			}
+			var out []string
+			for i, pd := range docs {
+				for a := range c17ParAPIs {
+					pd.ref[a] = run(pd, a)
+					out = append(out, c17ParAPIs[a]+strconv.Itoa(i)+"="+pd.ref[a])
+				}
+			}
+			var mu sync.Mutex
+			diffs := map[string]bool{}
+			start := make(chan struct{})
+			var wg sync.WaitGroup
+			for w := 0; w < workers; w++ {
+				wg.Add(1)
+				go func(w int) {
+					defer wg.Done()
+					<-start
+					for r := 0; r < rounds; r++ {
+						i := (w + r) % len(docs)
+						a := (w + 2*r + r/len(docs)) % len(c17ParAPIs)
+						if got := run(docs[i], a); got != docs[i].ref[a] {
+							mu.Lock()
+							diffs[c17ParAPIs[a]+strconv.Itoa(i)] = true
+							mu.Unlock()
+						}
+						if r%7 == 3 {
+							runtime.Gosched()
+						}
+					}
+				}(w)
+			}
+			close(start)
+			wg.Wait()
+			if len(diffs) == 0 {
+				out = append(out, "CC=same")
+			} else {
+				var ks []string
+				for k := range diffs {
+					ks = append(ks, k)
+				}
+				sort.Strings(ks)
+				if len(ks) > 4 {
+					ks = ks[:4]
+				}
+				out = append(out, "CC=diff:"+strings.Join(ks, ","))
+			}
+			out = append(out, "race=na")
+			return strings.Join(out, " ")
+		case "type":
+			if len(op) != 2 {
+				return "bad-op"
+			}
+			typeOp = strings.Join(op, " ")
+			p := &c17Parser{s: op[1]}
+			ty := p.ty()
+			if p.i != len(p.s) || ty.kind != "{" {
+				return "bad-op"
+			}
+			rt = ty.rtype()
+			// proc.Env caches the first read of a variable for the life of the process: the value of a
+			// variable is a function of its name (C17E_<value>; anything else is unset)
+			var setEnv func(t *c17Ty)
+			setEnv = func(x *c17Ty) {
+				if x.elem != nil {
+					setEnv(x.elem)
+				}
+				for i := range x.fields {
+					if e := x.fields[i].env; strings.HasPrefix(e, "C17E_") {
+						t.Setenv(e, e[5:])
+					}
+					setEnv(x.fields[i].ty)
+				}
+			}
+			setEnv(ty)
+			return "ok"
+		case "load":
+			if len(op) != 4 {
+				return "bad-op"
+			}
+			if rt == nil {
+				return "no-type"
+			}
+			style := verifh.Atoi(op[1])
+			p := &c17Parser{s: op[2]}
+			d := p.doc()
+			if p.i != len(p.s) {
+				return "bad-op"
+			}
+			var out []string
+			js := d.renderJSON(style)
+			ys := d.renderYAML(style)
+			ts, tok := d.renderTOML(style)
+			out = append(out, "jy="+c17TreeOfJSON(encoding.YamlToJson([]byte(ys))))
+			if tok {
+				out = append(out, "jt="+c17TreeOfJSON(encoding.TomlToJson([]byte(ts))))
+			} else {
+				out = append(out, "jt=skip")
+			}
+			loadAll := func(pre string, js, ys, ts string, tok bool) {
+				out = append(out, pre+"J="+c17Decode(rt, func(v any) error { return LoadFromJsonBytes([]byte(js), v) }))
+				out = append(out, pre+"Y="+c17Decode(rt, func(v any) error { return LoadFromYamlBytes([]byte(ys), v) }))
+				if tok {
+					out = append(out, pre+"T="+c17Decode(rt, func(v any) error { return LoadFromTomlBytes([]byte(ts), v) }))
+				} else {
+					out = append(out, pre+"T=skip")
+				}
+			}
+			loadAll("L", js, ys, ts, tok)
+			if op[3] != "-" {
+				p2 := &c17Parser{s: op[3]}
+				d2 := p2.doc()
+				if p2.i != len(p2.s) {
+					return "bad-op"
+				}
+				ts2, tok2 := d2.renderTOML(style)
+				loadAll("R", d2.renderJSON(style), d2.renderYAML(style), ts2, tok2)
+			}
+			out = append(out, "U="+c17Decode(rt, func(v any) error { return mapping.UnmarshalJsonBytes([]byte(js), v) }))
+			out = append(out, "S="+c17Decode(rt, func(v any) error { return json.Unmarshal([]byte(js), v) }))
+			out = append(out, c17AliasTok())
+			return strings.Join(out, " ")
+		case "munm":
+			if len(op) != 4 {
+				return "bad-op"
+			}
+			if rt == nil {
+				return "no-type"
+			}
+			opts, bits, okb := c17MapOpts(op[1])
+			if !okb {
+				return "bad-op"
+			}
+			style := verifh.Atoi(op[2])
+			p := &c17Parser{s: op[3]}
+			d := p.doc()
+			if p.i != len(p.s) {
+				return "bad-op"
+			}
+			js, ys := d.renderJSON(style), d.renderYAML(style)
+			ts, tok := d.renderTOML(style)
+			rd := func(s string) io.Reader {
+				return io.MultiReader(strings.NewReader(s[:len(s)/2]), strings.NewReader(s[len(s)/2:]))
+			}
+			var out []string
+			out = append(out, "MJB="+c17Decode(rt, func(v any) error { return mapping.UnmarshalJsonBytes([]byte(js), v, opts...) }))
+			out = append(out, "MJR="+c17Decode(rt, func(v any) error { return mapping.UnmarshalJsonReader(rd(js), v, opts...) }))
+			out = append(out, "MYB="+c17Decode(rt, func(v any) error { return mapping.UnmarshalYamlBytes([]byte(ys), v, opts...) }))
+			out = append(out, "MYR="+c17Decode(rt, func(v any) error { return mapping.UnmarshalYamlReader(rd(ys), v, opts...) }))
+			if tok {
+				out = append(out, "MTB="+c17Decode(rt, func(v any) error { return mapping.UnmarshalTomlBytes([]byte(ts), v, opts...) }))
+				out = append(out, "MTR="+c17Decode(rt, func(v any) error { return mapping.UnmarshalTomlReader(rd(ts), v, opts...) }))
+			} else {
+				out = append(out, "MTB=skip", "MTR=skip")
+			}
+			// MX: what passing options MEANS, spelled out without the entry point: the generic tree, then an unmarshaller
+			// built from exactly these options (the entry points may not take their unmarshaller from anywhere else)
+			out = append(out, "MX="+c17Decode(rt, func(v any) error {
+				var m any
+				if err := jsonx.Unmarshal([]byte(js), &m); err != nil {
+					return err
+				}
+				return mapping.NewUnmarshaler("json", opts...).Unmarshal(m, v)
+			}))
+			if bits == 0 {
+				out = append(out, "S="+c17Decode(rt, func(v any) error { return json.Unmarshal([]byte(js), v) }))
+			}
+			out = append(out, c17AliasTok())
+			return strings.Join(out, " ")
+		case "mrd":
+			// mrd <mode> <bits> <style> <doc>: the reader entry points on a reader with behaviour <mode>, next to the bytes ones
+			if len(op) != 5 {
+				return "bad-op"
+			}
+			if rt == nil {
+				return "no-type"
+			}
+			mode := op[1]
+			known := false
+			for _, m := range c17ReaderModes {
+				known = known || m == mode
+			}
+			opts, _, okb := c17MapOpts(op[2])
+			if !known || !okb {
+				return "bad-op"
+			}
+			style := verifh.Atoi(op[3])
+			p := &c17Parser{s: op[4]}
+			d := p.doc()
+			if p.i != len(p.s) {
+				return "bad-op"
+			}
+			js, ys := d.renderJSON(style), d.renderYAML(style)
+			ts, tok := d.renderTOML(style)
+			rd := func(s string) io.Reader { return &c17Reader{data: []byte(s), mode: mode} }
+			out := []string{
+				"JB=" + c17Decode(rt, func(v any) error { return mapping.UnmarshalJsonBytes([]byte(js), v, opts...) }),
+				"JR=" + c17Decode(rt, func(v any) error { return mapping.UnmarshalJsonReader(rd(js), v, opts...) }),
+				"YB=" + c17Decode(rt, func(v any) error { return mapping.UnmarshalYamlBytes([]byte(ys), v, opts...) }),
+				"YR=" + c17Decode(rt, func(v any) error { return mapping.UnmarshalYamlReader(rd(ys), v, opts...) }),
+			}
+			if tok {
+				out = append(out,
+					"TB="+c17Decode(rt, func(v any) error { return mapping.UnmarshalTomlBytes([]byte(ts), v, opts...) }),
+					"TR="+c17Decode(rt, func(v any) error { return mapping.UnmarshalTomlReader(rd(ts), v, opts...) }))
+			} else {
+				out = append(out, "TB=skip", "TR=skip")
+			}
+			out = append(out, c17AliasTok())
+			return strings.Join(out, " ")
+		case "fmiss":
+			// fmiss <ext> <env 0/1/2> <Load|LoadConfig> <missing|dir|empty>: the error paths of the file-level API
+			if len(op) != 5 {
+				return "bad-op"
+			}
+			if rt == nil {
+				return "no-type"
+			}
+			file := filepath.Join(t.TempDir(), "conf"+op[1])
+			switch op[4] {
+			case "missing":
+			case "dir":
+				if err := os.Mkdir(file, 0o700); err != nil {
+					return "io-error"
+				}
+			case "empty":
+				if err := os.WriteFile(file, nil, 0o600); err != nil {
+					return "io-error"
+				}
+			default:
+				return "bad-op"
+			}
+			var opts []Option
+			for k := 0; k < verifh.Atoi(op[2]); k++ {
+				opts = append(opts, UseEnv())
+			}
+			load := Load
+			if op[3] == "LoadConfig" {
+				load = LoadConfig
+			} else if op[3] != "Load" {
+				return "bad-op"
+			}
+			return c17Decode(rt, func(v any) error { return load(file, v, opts...) }) + " " + c17AliasTok()
+		case "cload":
+			if len(op) != 3 {
+				return "bad-op"
+			}
+			if rt == nil {
+				return "no-type"
+			}
+			style := verifh.Atoi(op[1])
+			p := &c17Parser{s: op[2]}
+			d := p.doc()
+			if p.i != len(p.s) {
+				return "bad-op"
+			}
+			js, ys := d.renderJSON(style), d.renderYAML(style)
+			ts, tok := d.renderTOML(style)
+			many := func(f func(v any) error) string {
+				first := ""
+				for i := 0; i < 200; i++ {
+					res := c17Decode(rt, f)
+					if i == 0 {
+						first = res
+					} else if res != first {
+						return "nondet"
+					}
+				}
+				return "det:" + first
+			}
+			out := []string{
+				"CJ=" + many(func(v any) error { return LoadFromJsonBytes([]byte(js), v) }),
+				"CY=" + many(func(v any) error { return LoadFromYamlBytes([]byte(ys), v) }),
+			}
+			if tok {
+				out = append(out, "CT="+many(func(v any) error { return LoadFromTomlBytes([]byte(ts), v) }))
+			} else {
+				out = append(out, "CT=skip")
+			}
+			out = append(out, c17AliasTok())
+			return strings.Join(out, " ")
+		case "f32":
+			if len(op) != 2 {
+				return "bad-op"
+			}
+			ft := reflect.StructOf([]reflect.StructField{{Name: "X", Type: reflect.TypeOf(float32(0)), Tag: `json:"x"`}})
+			js := `{"x":` + op[1] + `}`
+			return "U=" + c17Decode(ft, func(v any) error { return mapping.UnmarshalJsonBytes([]byte(js), v) }) +
+				" L=" + c17Decode(ft, func(v any) error { return LoadFromJsonBytes([]byte(js), v) }) +
+				" S=" + c17Decode(ft, func(v any) error { return json.Unmarshal([]byte(js), v) }) + " " + c17AliasTok()
+		case "filldef":
+			if rt == nil {
+				return "no-type"
+			}
+			return c17Decode(rt, func(v any) error { return FillDefault(v) }) + " " + c17AliasTok()
+		case "fload":
+			if len(op) != 6 {
+				return "bad-op"
+			}
+			if rt == nil {
+				return "no-type"
+			}
+			ext, useEnv, api, style := op[1], op[2] != "0", op[3], verifh.Atoi(op[4])
+			p := &c17Parser{s: op[5]}
+			d := p.doc()
+			if p.i != len(p.s) {
+				return "bad-op"
+			}
+			var content string
+			switch strings.ToLower(ext) {
+			case ".toml":
+				ts, tok := d.renderTOML(style)
+				if !tok {
+					return "skip " + c17AliasTok()
+				}
+				content = ts
+			case ".yaml", ".yml":
+				content = d.renderYAML(style)
+			default:
+				content = d.renderJSON(style)
+			}
+			t.Setenv("C17V", "xv")
+			file := filepath.Join(t.TempDir(), "conf"+ext)
+			if err := os.WriteFile(file, []byte(content), 0o600); err != nil {
+				return "io-error"
+			}
+			var opts []Option
+			if useEnv {
+				opts = append(opts, UseEnv())
+			}
+			if op[2] == "2" {
+				opts = append(opts, UseEnv())
+			}
+			load := Load
+			switch api {
+			case "LoadConfig":
+				load = LoadConfig
+			case "Bytes":
+				// the loaders without options, on the same content
+				if useEnv {
+					return "bad-op"
+				}
+				load = func(_ string, v any, _ ...Option) error {
+					switch strings.ToLower(ext) {
+					case ".toml":
+						return LoadFromTomlBytes([]byte(content), v)
+					case ".yaml", ".yml":
+						if style&1 != 0 {
+							return LoadConfigFromYamlBytes([]byte(content), v) // deprecated wrapper
+						}
+						return LoadFromYamlBytes([]byte(content), v)
+					case ".json":
+						if style&1 != 0 {
+							return LoadConfigFromJsonBytes([]byte(content), v) // deprecated wrapper
+						}
+						return LoadFromJsonBytes([]byte(content), v)
+					}
+					return fmt.Errorf("no loader")
+				}
+			case "Load", "MustLoad":
+			default:
+				return "bad-op"
+			}
+			res := c17Decode(rt, func(v any) error { return load(file, v, opts...) })
+			if api == "MustLoad" && strings.HasPrefix(res, "ok:") {
+				// MustLoad exits the process on an error: only called where Load succeeded
+				m := c17Decode(rt, func(v any) error { MustLoad(file, v, opts...); return nil })
+				if m == res {
+					res += " M=same"
+				} else {
+					res += " M=diff"
+				}
+			}
+			// D: the loader of the format called directly on the (expanded, when UseEnv) content
+			dc := content
+			if useEnv {
+				dc = os.ExpandEnv(content)
+			}
+			direct := "noloader"
+			switch strings.ToLower(ext) {
+			case ".toml":
+				direct = c17Decode(rt, func(v any) error { return LoadFromTomlBytes([]byte(dc), v) })
+			case ".yaml", ".yml":
+				direct = c17Decode(rt, func(v any) error { return LoadFromYamlBytes([]byte(dc), v) })
+			case ".json":
+				direct = c17Decode(rt, func(v any) error { return LoadFromJsonBytes([]byte(dc), v) })
+			}
+			return res + " D=" + direct + " " + c17AliasTok()
+		case "file":
+			if len(op) != 7 {
+				return "bad-op"
+			}
+			ext, useEnv, pre, name, val, post := op[1], op[2] == "1", op[3], op[4], op[5], op[6]
+			if name != "C17unset" {
+				t.Setenv(name, val)
+			}
+			text := pre + "${" + name + "}" + post
+			var content string
+			switch strings.ToLower(ext) {
+			case ".toml":
+				content = `v = "` + text + `"` + "\n"
+			case ".yaml", ".yml":
+				content = `v: "` + text + `"` + "\n"
+			default:
+				content = `{"v":"` + text + `"}`
+			}
+			file := filepath.Join(t.TempDir(), "conf"+ext)
+			if err := os.WriteFile(file, []byte(content), 0o600); err != nil {
+				return "io-error"
+			}
+			var c struct {
+				V string `json:"v"`
+			}
+			var err error
+			if useEnv {
+				err = Load(file, &c, UseEnv())
+			} else {
+				err = Load(file, &c)
+			}
+			if err != nil {
+				return "err"
+			}
+			return `ok:"` + c.V + `"`
+		}
+		return "bad-op"
+	}
+	return step
 }
